@@ -90,6 +90,7 @@ struct PoolUser {
         XV_CATCH_DOCUMENTED(r)
         V.text = join(r.d.lines);
         for (auto& l : extra) { V.text += l; V.text += '\n'; }
+        normalise_error_order(r.errors);
         for (auto& e : r.errors) { V.text += "ERR|" + e + "\n"; }
         if (!r.exc.empty()) V.text += "EXC|" + r.exc + "\n";
         V.errs = r.errs + r.fatals;
